@@ -7,21 +7,21 @@ import "strings"
 func registerProps() {
 	propTable["C01"] = PropDef{
 		Title:       "Key-value read-after-write: every read returns the last successful write",
-		Rules:       []string{"R-TXN", "R-COMMIT", "R-ROWCOMPLETE", "R-READ-NULL", "R-READ-ONCE", "R-LIVE", "R-COLL", "R-ERRPROP", "R-EVT-ROW", "R-RMW", "R-ERR-OVERWRITE", "R-EXP", "R-FRESH-DECODE"},
+		Rules:       []string{"R-TXN", "R-COMMIT", "R-ROWCOMPLETE", "R-READ-NULL", "R-READ-ONCE", "R-LIVE", "R-COLL", "R-ERRPROP", "R-EVT-ROW", "R-RMW", "R-ERR-OVERWRITE", "R-EXP", "R-FRESH-DECODE", "R-WRITE-PATH"},
 		Scope:       map[string][]string{"R-RMW": {"WriteSubDoc", "SubdocInsert"}},
-		Explanation: "Decides necessary structural clauses, not the behaviour: (a) an operation that fails leaves the document as it was <= every row write runs on the handle of the one transaction (R-TXN) that the runner rolls back on every failing path and whose commit error is reported (R-COMMIT), and no statement error inside a transaction closure is dropped (R-ERRPROP) nor is a stored error replaced by a later step's before it was examined (R-ERR-OVERWRITE); (b) the last successful write is what is stored <= every body/tombstone/xattr statement assigns the complete row (R-ROWCOMPLETE) and the values bound into it are the operation's own (R-EVT-ROW); a read-modify-write of a body starts every attempt from a fresh read, so that what it stores is the document it last read plus its own change (R-RMW, sub-document writers); (c) missing if deleted <= the read helper maps a NULL body to the missing error (R-READ-NULL), read-side liveness tests use the body column (R-LIVE), reads are scoped to the receiver's collection (R-COLL). A read outside a transaction is one statement (R-READ-ONCE); the expiry a write stores does not depend on the supplied value being non-zero (R-EXP/e); maps decoded into inside a loop are fresh per iteration (R-FRESH-DECODE).",
+		Explanation: "Decides necessary structural clauses, not the behaviour: (a) an operation that fails leaves the document as it was <= every row write runs on the handle of the one transaction (R-TXN) that the runner rolls back on every failing path and whose commit error is reported (R-COMMIT), and no statement error inside a transaction closure is dropped (R-ERRPROP) nor is a stored error replaced by a later step's before it was examined (R-ERR-OVERWRITE); (b) the last successful write is what is stored <= every body/tombstone/xattr statement assigns the complete row (R-ROWCOMPLETE) and the values bound into it are the operation's own (R-EVT-ROW); a read-modify-write of a body starts every attempt from a fresh read, so that what it stores is the document it last read plus its own change (R-RMW, sub-document writers); (c) missing if deleted <= the read helper maps a NULL body to the missing error (R-READ-NULL), read-side liveness tests use the body column (R-LIVE), reads are scoped to the receiver's collection (R-COLL). A read outside a transaction is one statement (R-READ-ONCE); the expiry a write stores does not depend on the supplied value being non-zero (R-EXP/e); maps decoded into inside a loop are fresh per iteration (R-FRESH-DECODE). An exported mutating entry point reports success only on paths that went through the document writer, except where the caller's own callback cancels (R-WRITE-PATH).",
 		NotDecided:  "equality of returned bytes/CAS/expiry with a model over arbitrary histories; JSON encode/decode; nil bodies passed to Set/Add; purge visibility; value-level control flow inside Update's callback handling.",
 	}
 	propTable["C02"] = PropDef{
 		Title:       "Optimistic concurrency: a CAS-conditional write succeeds iff the CAS is current",
-		Rules:       []string{"R-CAS", "R-RMW", "R-INSERT-GUARD", "R-TXN", "R-COMMIT", "R-FLAGS", "R-COLL"},
-		Explanation: "For each of the nine collection entry points with an expected-CAS parameter, every statement that writes body or xattrs is guarded inside the same transaction closure by a SQL conjunct cas = <expected> or by a Go comparison with documents.cas read through the transaction, decided by cut-reachability on the SSA control-flow graph (R-CAS); sub-document writers and Update loops write back with the CAS they read (R-RMW); a rejected write changes nothing because it shares the rolled-back transaction (R-TXN, R-COMMIT); insert semantics for CAS 0 / AddOnly are governed by the conflict guard (R-INSERT-GUARD) and the option flags are enforced (R-FLAGS). The CAS that is compared is read from the row of the receiver's own collection (R-COLL).",
+		Rules:       []string{"R-CAS", "R-RMW", "R-INSERT-GUARD", "R-TXN", "R-COMMIT", "R-FLAGS", "R-COLL", "R-MONO"},
+		Explanation: "For each of the nine collection entry points with an expected-CAS parameter, every statement that writes body or xattrs is guarded inside the same transaction closure by a SQL conjunct cas = <expected> or by a Go comparison with documents.cas read through the transaction, decided by cut-reachability on the SSA control-flow graph (R-CAS); sub-document writers and Update loops write back with the CAS they read (R-RMW); a rejected write changes nothing because it shares the rolled-back transaction (R-TXN, R-COMMIT); insert semantics for CAS 0 / AddOnly are governed by the conflict guard (R-INSERT-GUARD) and the option flags are enforced (R-FLAGS). The CAS that is compared is read from the row of the receiver's own collection (R-COLL). A CAS value is never handed out twice, so equality with the expected CAS identifies one version (R-MONO).",
 		NotDecided:  "behaviour of real interleavings (rests on SQLite isolation and the bucket mutex, trusted); which error value is returned; the pinned CAS-free resurrection of a tombstone by AddOnly.",
 	}
 	propTable["C03"] = PropDef{
 		Title:       "Concurrent operations are linearizable, across goroutines and bucket handles",
-		Rules:       []string{"R-TXN", "R-TXN-READS", "R-COMMIT", "R-SHARED-COPY", "R-RMW", "R-GUARDED", "R-ONE-TXN", "R-ROWCOMPLETE", "R-REV", "R-READ-ONCE"},
-		Explanation: "Necessary atomic-section structure only: a read outside a transaction is a single statement (R-READ-ONCE); read-modify-write entry points read through the transaction handle and write in the same closure (R-TXN, R-TXN-READS, R-REV's same-transaction clause); the runner holds the shared mutex across Begin..Commit (R-COMMIT); all handle copies share that mutex and database (R-SHARED-COPY); optimistic loops carry the CAS they read, into fresh variables, and retry only on mismatch (R-RMW); shared in-memory maps and flags are accessed under their mutex (R-GUARDED); one transaction per operation (R-ONE-TXN); every mutation refreshes the row's CAS so that a stale reader's conditional write fails (R-ROWCOMPLETE).",
+		Rules:       []string{"R-TXN", "R-TXN-READS", "R-COMMIT", "R-SHARED-COPY", "R-RMW", "R-GUARDED", "R-ONE-TXN", "R-ROWCOMPLETE", "R-REV", "R-READ-ONCE", "R-REGISTRY", "R-CAS"},
+		Explanation: "Necessary atomic-section structure only: a read outside a transaction is a single statement (R-READ-ONCE); read-modify-write entry points read through the transaction handle and write in the same closure (R-TXN, R-TXN-READS, R-REV's same-transaction clause); the runner holds the shared mutex across Begin..Commit (R-COMMIT); all handle copies share that mutex and database (R-SHARED-COPY); optimistic loops carry the CAS they read, into fresh variables, and retry only on mismatch (R-RMW); shared in-memory maps and flags are accessed under their mutex (R-GUARDED); one transaction per operation (R-ONE-TXN); every mutation refreshes the row's CAS so that a stale reader's conditional write fails (R-ROWCOMPLETE). Every opener is handed a copy of the one registered bucket (R-REGISTRY); CAS comparisons happen inside the writing transaction (R-CAS).",
 		NotDecided:  "linearizability of observed histories, real-time order, SQLite's isolation guarantees.",
 	}
 	propTable["C04"] = PropDef{
@@ -32,32 +32,32 @@ func registerProps() {
 	}
 	propTable["C05"] = PropDef{
 		Title:       "Tombstone coherence: deleted means no body, for every observer and every path",
-		Rules:       []string{"R-TOMB", "R-ROWCOMPLETE", "R-XATTR-CARRY", "R-TOMB-XATTRS", "R-PURGE", "R-BACKFILL", "R-EVT-ROW", "R-LIVE"},
-		Explanation: "The two encodings of 'deleted' (value IS NULL, tombstone flag) are written together and coherently by every statement (R-TOMB); tombstoning clears expiry and rewrites xattrs, body-giving writes clear a tombstone's xattrs (R-ROWCOMPLETE, R-XATTR-CARRY); the xattrs a tombstoning statement binds have been filtered since they were read, or are known empty (R-TOMB-XATTRS); the deletion flag of an event is a nil-test of the body that statement stores (R-EVT-ROW); purge removes exactly the rows without a body (R-PURGE); the deletion flag of live and backfill events comes from the same row state (R-EVT-ROW, R-BACKFILL); readers use the body column (R-LIVE).",
+		Rules:       []string{"R-TOMB", "R-ROWCOMPLETE", "R-XATTR-CARRY", "R-TOMB-XATTRS", "R-PURGE", "R-BACKFILL", "R-EVT-ROW", "R-LIVE", "R-FILTER-RESULT"},
+		Explanation: "The two encodings of 'deleted' (value IS NULL, tombstone flag) are written together and coherently by every statement (R-TOMB); tombstoning clears expiry and rewrites xattrs, body-giving writes clear a tombstone's xattrs (R-ROWCOMPLETE, R-XATTR-CARRY); the xattrs a tombstoning statement binds have been filtered since they were read, or are known empty (R-TOMB-XATTRS); the deletion flag of an event is a nil-test of the body that statement stores (R-EVT-ROW); purge removes exactly the rows without a body (R-PURGE); the deletion flag of live and backfill events comes from the same row state (R-EVT-ROW, R-BACKFILL); readers use the body column (R-LIVE). The filter that drops user xattrs returns nothing, not its input, when everything was dropped (R-FILTER-RESULT).",
 		NotDecided:  "which xattrs count as system xattrs (the underscore test is value level); nil bodies bound to a statement that writes tombstone=0; agreement of observers over concrete histories.",
 	}
 	propTable["C06"] = PropDef{
 		Title:       "Insert-only writes never overwrite a live document, always create an absent one",
-		Rules:       []string{"R-INSERT-GUARD", "R-FLAGS", "R-TOMB", "R-CAS", "R-LIVE"},
-		Explanation: "Every INSERT..ON CONFLICT DO UPDATE on documents (except the upsert primitive) restricts its update, as a top-level AND-conjunct, to rows without a body and has its RowsAffected consulted; Add/AddRaw reach only such guarded inserts (R-INSERT-GUARD); callers of the unconditional upsert primitive decide existence in Go through option flags that guard error returns (R-FLAGS); the guard's flag means 'no body' because the flag and the body are written together (R-TOMB); WriteCas' CAS-less insert variant is reachable only for CAS 0 / AddOnly (R-CAS). Whether the row read is live is decided by NULL-ness of the body or the flag, never by the body's length (R-LIVE).",
+		Rules:       []string{"R-INSERT-GUARD", "R-FLAGS", "R-TOMB", "R-CAS", "R-LIVE", "R-COLL", "R-EVT-ROW"},
+		Explanation: "Every INSERT..ON CONFLICT DO UPDATE on documents (except the upsert primitive) restricts its update, as a top-level AND-conjunct, to rows without a body and has its RowsAffected consulted; Add/AddRaw reach only such guarded inserts (R-INSERT-GUARD); callers of the unconditional upsert primitive decide existence in Go through option flags that guard error returns (R-FLAGS); the guard's flag means 'no body' because the flag and the body are written together (R-TOMB); WriteCas' CAS-less insert variant is reachable only for CAS 0 / AddOnly (R-CAS). Whether the row read is live is decided by NULL-ness of the body or the flag, never by the body's length (R-LIVE). The row that decides whether the key is absent is the row of the receiver's collection (R-COLL). The tombstone flag stored with a row (which every insert-only write tests) is derived from the body stored with it (R-EVT-ROW/isDeletion, R-TOMB).",
 		NotDecided:  "per-history truth of the 'iff'; nil bodies.",
 	}
 	propTable["C07"] = PropDef{
 		Title:       "Body and xattrs are independent; a combined write is all-or-nothing",
-		Rules:       []string{"R-TXN", "R-ERRPROP", "R-XATTR-CARRY", "R-MACRO-ORDER", "R-ONE-TXN", "R-EVT-ROW", "R-ROWCOMPLETE", "R-ERR-OVERWRITE", "R-OPTS-CARRY"},
-		Explanation: "The options a caller gives (PreserveExpiry, macro expansions) reach the function that does the write unchanged or as a complete copy (R-OPTS-CARRY). A combined write is one transaction with one CAS in which no statement error is dropped, nor an error of one step (e.g. one xattr key of several) replaced by a later step's before it was examined (R-TXN, R-ONE-TXN, R-ERRPROP, R-ERR-OVERWRITE, R-EVT-ROW/cas); body-only writes carry the row's xattrs over and clear them only on tombstones (R-XATTR-CARRY); the event fields that macro expansion reads (cas, value) are final when it runs (R-MACRO-ORDER); xattr-only statements still refresh cas and revSeqNo (R-ROWCOMPLETE).",
+		Rules:       []string{"R-TXN", "R-ERRPROP", "R-XATTR-CARRY", "R-MACRO-ORDER", "R-ONE-TXN", "R-EVT-ROW", "R-ROWCOMPLETE", "R-ERR-OVERWRITE", "R-OPTS-CARRY", "R-FILTER-RESULT", "R-XATTR-ROUNDTRIP"},
+		Explanation: "The options a caller gives (PreserveExpiry, macro expansions) reach the function that does the write unchanged or as a complete copy (R-OPTS-CARRY). A combined write is one transaction with one CAS in which no statement error is dropped, nor an error of one step (e.g. one xattr key of several) replaced by a later step's before it was examined (R-TXN, R-ONE-TXN, R-ERRPROP, R-ERR-OVERWRITE, R-EVT-ROW/cas); body-only writes carry the row's xattrs over and clear them only on tombstones (R-XATTR-CARRY); the event fields that macro expansion reads (cas, value) are final when it runs (R-MACRO-ORDER); xattr-only statements still refresh cas and revSeqNo (R-ROWCOMPLETE). The xattr filter helper returns the re-encoded map, never its input, after the edit ran (R-FILTER-RESULT); stored xattrs are decoded whenever they exist before the unconditional re-encode (R-XATTR-ROUNDTRIP).",
 		NotDecided:  "byte-for-byte preservation through JSON re-marshalling; CRC correctness; which inputs count as nil (payload.isNil is value level); error classification.",
 	}
 	propTable["C08"] = PropDef{
 		Title:       "Live feed: one faithful event per successful mutation, delivered in CAS order",
-		Rules:       []string{"R-EVT-1", "R-EVT-FEEDEVENT", "R-EVT-ROW", "R-EVT-CONV", "R-QUEUE", "R-ATOMIC-ENQ", "R-POST-ORDER", "R-FEEDMAP", "R-FEEDMAP-WRITERS", "R-SHARED-COPY", "R-INSERT-GUARD"},
-		Explanation: "The post function is never reachable from inside a transaction and each call of it is guarded by 'transaction error is nil' and 'event is non-nil' (R-EVT-1); mutation/deletion FeedEvents are built only by the one converter, whose fields are computed from exactly the corresponding event fields (R-EVT-FEEDEVENT, R-EVT-CONV); for every write unit each event field is the value bound into (or scanned back from) the row in the same transaction (R-EVT-ROW); queues are FIFO (R-QUEUE); commit and enqueue share a critical section and nothing that can block precedes the enqueue (R-ATOMIC-ENQ, R-POST-ORDER); registry entries are only ever extended by appending a new feed (R-FEEDMAP-WRITERS); events go to the writer's own collection's feeds, shared by all handles (R-FEEDMAP, R-SHARED-COPY); a refused insert leaves without an event (R-INSERT-GUARD).",
+		Rules:       []string{"R-EVT-1", "R-EVT-FEEDEVENT", "R-EVT-ROW", "R-EVT-CONV", "R-QUEUE", "R-ATOMIC-ENQ", "R-POST-ORDER", "R-FEEDMAP", "R-FEEDMAP-WRITERS", "R-SHARED-COPY", "R-INSERT-GUARD", "R-HLC"},
+		Explanation: "The post function is never reachable from inside a transaction and each call of it is guarded by 'transaction error is nil' and 'event is non-nil' (R-EVT-1); mutation/deletion FeedEvents are built only by the one converter, whose fields are computed from exactly the corresponding event fields (R-EVT-FEEDEVENT, R-EVT-CONV); for every write unit each event field is the value bound into (or scanned back from) the row in the same transaction (R-EVT-ROW); queues are FIFO (R-QUEUE); commit and enqueue share a critical section and nothing that can block precedes the enqueue (R-ATOMIC-ENQ, R-POST-ORDER); registry entries are only ever extended by appending a new feed (R-FEEDMAP-WRITERS); events go to the writer's own collection's feeds, shared by all handles (R-FEEDMAP, R-SHARED-COPY); a refused insert leaves without an event (R-INSERT-GUARD). CAS order is commit order because the CAS is drawn inside the transaction closure, under the bucket mutex (R-HLC/CALL).",
 		NotDecided:  "delivery itself (goroutine scheduling), xattr framing bytes, exactly-once at run time.",
 	}
 	propTable["C09"] = PropDef{
 		Title:       "Backfill is a faithful snapshot and joins the live stream without a gap",
 		Rules:       []string{"R-BACKFILL", "R-BACKFILL-GAP", "R-EVT-CONV", "R-COLL", "R-BACKFILL-COND", "R-EVT-FEEDEVENT"},
-		Explanation: "The snapshot is taken whenever the arguments ask for it (R-BACKFILL-COND) and the live fan-out hands every event to every registered feed without filtering on event or feed state (R-EVT-FEEDEVENT). The backfill statement ranges over exactly the receiver's rows with cas >= start (tombstones included), ordered by cas, and its Scan fills every event field from the column that mirrors it, through the same converter as live events (R-BACKFILL, R-EVT-CONV, R-COLL); snapshot and live registration must form one critical section (R-BACKFILL-GAP).",
+		Explanation: "The snapshot is taken whenever the arguments ask for it (R-BACKFILL-COND) and the live fan-out hands every event to every registered feed without filtering on event or feed state (R-EVT-FEEDEVENT). The backfill statement ranges over exactly the receiver's rows with cas >= start (tombstones included), ordered by cas, and its Scan fills every event field from the column that mirrors it, through the same converter as live events (R-BACKFILL, R-EVT-CONV, R-COLL); snapshot and live registration must form one critical section (R-BACKFILL-GAP). The values scanned from a backfill row are copies, not views into the driver's row buffer (R-BACKFILL).",
 		NotDecided:  "that the snapshot equals the contents at a linearisation point; the interleaving of queued live events with backfill events at run time; begin/end marker placement beyond what R-BACKFILL-GAP's function shape implies.",
 	}
 	propTable["C10"] = PropDef{
